@@ -54,7 +54,38 @@ def attr_linkage(rep, cd: Codecs, u, rule="codec-symmetry"):
         return
     if obj["cls"] is not None and u.cls is not None and obj["cls"].name != u.cls.name:
         rep.fail(rule, mod, fn, obj["node"], f"[attr] reader of {u.name} returns a {obj['cls'].name}")
+    # reader-driven: a value the decoder stores into the object must have been written from the object
+    from ..layout import Construct, Install, CallOn
+    flows = []
+    for t in walk_terms(u.rterms):
+        if isinstance(t, Construct):
+            flows += [norm(a) for a in list(t.args) + list(t.kwargs.values())]
+        elif isinstance(t, (Install,)):
+            flows.append(norm(t.value))
+        elif isinstance(t, CallOn):
+            flows += [norm(a) for a in list(t.args) + list(t.kwargs.values())]
+    import re as _re
+    from ..layout import Str as _Str, Date as _Date
+    for t in walk_terms(u.rterms):
+        ph = getattr(t, "ph", None)
+        if not ph or not isinstance(t, (Field, _Str, _Date)) or not getattr(t, "used", True):
+            continue
+        if isinstance(t, Field) and t.role != "data":
+            continue
+        w = un.bind.get(ph)
+        if w is None or not isinstance(w, ast.Constant):
+            continue
+        if any(_re.search(rf"\b{ph}\b", s) for s in flows):
+            rep.fail(rule, mod, fn, t.stmt or t.node, f"[attr] the decoder stores this field into the object, but the encoder writes the constant `{norm(w)}` there: the stored value is lost on encode")
     reads = writer_attr_reads(cd.prog, u)
+    # reader-driven: an attribute reconstructed from the stored value of ANOTHER attribute
+    for a, got in sorted(obj["attrs"].items()):
+        if a in reads or got is None:
+            continue
+        g0 = got.value if isinstance(got, ast.Attribute) and got.attr == "value" else got
+        if isinstance(g0, ast.Attribute) and norm(g0.value) == "self" and g0.attr != a and cd.prog.lookup_method(u.cls, g0.attr) is None if u.cls else False:
+            rep.fail(rule, mod, fn, obj["node"], f"[attr] attribute {a} is decoded from the field in which the encoder stores `self.{g0.attr}` (the encoder never writes `self.{a}`): its value is lost / replaced on a round trip",
+                     construct=f"{norm(head(obj['node']))} :: {a} <- {g0.attr}")
     for a, wnode in sorted(reads.items()):
         if a == "format":
             continue  # rule 6
@@ -209,8 +240,38 @@ def format_guards(rep, cd: Codecs, u, rule="codec-symmetry"):
                nontrivial=True)
 
 
+class _RuleFilter:
+    """Report proxy: keeps only some rules of another property's rule set, under a prefixed rule name."""
+
+    def __init__(self, rep, keep, prefix):
+        self._rep, self._keep, self._prefix = rep, keep, prefix
+
+    def ok(self, rule, *a, **k):
+        if rule in self._keep:
+            self._rep.ok(self._prefix + rule, *a, **k)
+
+    def fail(self, rule, *a, **k):
+        if rule in self._keep:
+            self._rep.fail(self._prefix + rule, *a, **k)
+
+    def __getattr__(self, name):
+        return getattr(self._rep, name)
+
+
+def equivalence_discharge(prog, cd, rep, prefix="atom-equivalence/"):
+    """len(map) == len(items) is used to identify counts; it holds because the two lists are only ever mutated pairwise
+    (C15's parallel-init / paired-mutation / handler-keeps-pair rules, re-run here for exactly those classes)."""
+    from .c15 import EXPECTED, check_class
+    proxy = _RuleFilter(rep, {"parallel-init", "paired-mutation", "handler-keeps-pair", "container-kind"}, prefix)
+    for cname, (amap, items) in EXPECTED.items():
+        if cname in cd.pairs and cname in cd.units:
+            a, b, c, f = cd.pairs[cname]
+            rep.attempt(check_class, prog, cd, proxy, cname, amap, items, c)
+
+
 def run(prog, rep):
     cd = Codecs(prog)
+    cd.flag_errors(rep)
     rep.explanation = (
         "codec-symmetry: every _write/_build pair is abstractly interpreted (no execution) into a layout term "
         "symbolic in every count; the two terms are unified position by position (order, on-disk class and width, "
@@ -228,6 +289,12 @@ def run(prog, rep):
         determinism(rep, cd, u)
         format_guards(rep, cd, u)
     rep.floor("codec-symmetry/positions", nfields, 110)
+    # the field codecs the interpreter treats as atoms are symmetric themselves (primitive summary)
+    from .. import primitives as PR
+    rep.attempt(PR.tdftype_primitives, prog, rep)
+    rep.attempt(PR.string_codec, prog, rep)
+    rep.attempt(PR.date_codec, prog, rep)
+    equivalence_discharge(prog, cd, rep)
     for n in cd.notes:
         rep.note(n)
     for a in cd.assumptions:
